@@ -1,9 +1,11 @@
 import RTV.Drv.Match
+import RTV.Drv.Unit
 import RTV.Drv.Num
 import RTV.Drv.ResGen
 import RTV.Drv.Timex
 import RTV.Drv.Factory
 import RTV.Drv.Re
+import RTV.Drv.Choice
 import RTV.Drv.Cal
 import RTV.Drv.DtRes
 import RTV.Drv.Span
@@ -15,9 +17,11 @@ def dispatch (line : String) : String :=
   match line.splitOn "\t" with
   | op :: args =>
     (dispatchMatch op args
+      <|> dispatchUnit op args
       <|> dispatchResGen op args
       <|> dispatchFactory op args
       <|> dispatchRe op args
+      <|> dispatchChoice op args
       <|> dispatchTimex op args
       <|> dispatchCal op args
       <|> dispatchDtRes op args
